@@ -1060,6 +1060,8 @@ class SetupTr:
         if txt == "abort = true":
             return [("setabort",)]
         if txt in SETUP_CALLS:
+            if self.in_obs:       # a call of the model under an observer guard: stays an SCall (the checker refuses it); for the report
+                self.effects[self.fresh(s, self.effects)] = [("model", SETUP_CALLS[txt])]
             return [("call", SETUP_CALLS[txt])]
         if refs_abort(s):
             raise TranslateError("set-up: Display::abort is accessed by `%s` (only `Display::abort = true;` is understood)" % (txt or k)[:160])
